@@ -858,7 +858,8 @@ def gen_limiter(rng):
     ops = []
     for _ in range(rng.randint(1, 30)):
         k = rng.random()
-        w = rng.choice([1, 1, 2, 3, limit, 0, -1]) if kind == "weighted" else 1
+        # (round-8 seed C09-15: the fixed / dynamic limiters take one slot per call whatever weight they are handed)
+        w = rng.choice([1, 1, 2, 3, limit, 0, -1]) if kind == "weighted" else rng.choice([1, 1, 1, 2, 3])
         if k < 0.45:
             ops.append(["acq", w])
         elif k < 0.75:
@@ -1528,6 +1529,9 @@ _direct_family.impl = impl_direct
 FAMILIES = [_direct_family, _sim_family]
 
 TRUSTED = [
+    "translator harness/translate/py2coq.py + declared types (py2coq_targets.py ConcurrencyGen): FixedConcurrency / DynamicConcurrency / "
+    "WeightedConcurrency are regenerated from components/server/concurrency.py on every run and every operation is proved equal to the limiter "
+    "model's c_step (C09/ConcTie.v); logging calls are no-ops, a call of a method the class does not have is CErr",
     "Coq 8.16.1 kernel (coqc, vm_compute for refutation witnesses and case evaluation); no native_compute",
     "axioms: none (every theorem of C09/Props.v is 'Closed under the global context')",
     "correspondence harness harness/props/c09.py (generators, observers, in-Coq comparison ok_* of C09/Model.v)",
@@ -1535,7 +1539,8 @@ TRUSTED = [
     "private attributes read by the observers: Resource/Semaphore/Mutex/RWLock/Barrier._waiters, ConnectionPool._idle_connections/_active_connections/_waiters/_next_waiter_id/_handle_idle_timeout, Bulkhead._wait_queue/_in_flight, PreemptibleResource._waiters, SimFuture._add_settle_callback",
 ]
 
-COQ_FILES = ["C09/Model.v", "C09/Resource.v", "C09/Sync.v", "C09/Limits.v", "C09/Pool.v", "C09/Bulk.v", "C09/Barrier.v", "C09/Examples.v", "C09/Props.v"]
+COQ_FILES = ["C09/Model.v", "C09/Resource.v", "C09/Sync.v", "C09/Limits.v", "C09/Pool.v", "C09/Bulk.v", "C09/Barrier.v", "C09/Examples.v",
+             "Base/PyLib.v", "Gen/ConcurrencyGen.v", "C09/ConcTie.v", "C09/Props.v"]
 
 
 class _Sharded:
@@ -1557,7 +1562,12 @@ class _Sharded:
 
 def run(ctx):
     sctx = _Sharded(ctx)
+    from props import pygen
+    ok, info = pygen.regenerate("ConcurrencyGen")    # components/server/concurrency.py translated from $HS_REPO by py2coq
+    ctx.coverage["regenerated"] = info
     ctx.prove(COQ_FILES, allowed_axioms=(), trusted_base=TRUSTED)
+    if not ok and ctx.pending_obligation_violation:
+        ctx.pending_obligation_violation["translator"] = info.get("error")
     stats = []
     import os
     only = os.environ.get("C09_FAMILIES")
